@@ -1184,14 +1184,24 @@ func SpecRdbBuffered(r *memoryRdb) int64 { panic("abstract spec function") }
 //@ func ChannelReader.IsAof(self) (b)
 //@   trusted abstract cache reader
 //@   modifies nothing
+//   rdrId  the replication id of the data the reader handed out last is bound to
+//@ func Channel.NewReader(self, off) (r, err)
+//@   trusted abstract cache: a reader is bound to the data the cache holds when it is opened, whatever id was asked for
+//@   ghost var rdrId string
+//@   modifies heap, rdrId
+//@ func ChannelReader.RunId(self) (id)
+//@   trusted abstract cache reader: the replication id of the data the reader was opened on
+//@   modifies nothing
+//@   ensures bound: id == rdrId
 //@ func ReplicaLeader.sendData
 //@   arith int
 //@   properties C16
-//@   replay syncer_replicaFollower
+//@   replay syncer_replicaFollower syncer_leaderRunIdSwitch
+//@   assert at call Send: a_follower_is_served_only_data_of_the_replication_id_it_asked_for: arg0 != nil && (arg0.Code == golang.SyncResponse_META || arg0.Code == golang.SyncResponse_CONTINUE) ==> rdrId == reqSp.RunId
 //@   ghost var readerLeft mathint = 0 - 1
 //@   ghost var readerSize mathint = 0 - 1
 //@   requires nonnil: rl != nil
-//@   modifies heap, readerLeft, readerSize, chId, chRight, chEmpty
+//@   modifies heap, readerLeft, readerSize, chId, chRight, chEmpty, rdrId
 //@   set readerLeft = result after call Left
 //@   set readerSize = result after call Size
 //@   assert at call Send: a_transfer_is_announced_at_the_offset_the_readers_data_starts_at: arg0 != nil && arg0.Code == golang.SyncResponse_META ==> arg0.Offset == readerLeft && arg0.Size == readerSize
